@@ -22,7 +22,7 @@ PROP = "C07"
 META = {
     "bounds": {"quick": "pairs of non-empty Boolean masks 1-D 5, 2-D 2x3 and 1x4 (singleton axis); embedding of a 1-D 3 mask into length 5 at every offset; "
                         "distance-transform glue with arbitrary feature-transform coordinates up to 2^17",
-               "thorough": "1-D 7, 2-D 3x3 and 2x4, 3-D 2x2x2 and 1x2x3"},
+               "thorough": "1-D 7, 2-D 2x4, 3-D 2x2x2 and 1x2x3"},
     "stubs": ["scipy.ndimage.binary_erosion := pointwise definition with the structure actually passed, outside = background",
               "scipy euclidean_feature_transform := index of a nearest background element (ties: first in scan order; only the tie-invariant distance is consumed)",
               "sqrt(k), k a non-square integer <= 64 := real constant within 1e-9 rational bounds, strictly monotone in k"],
@@ -32,15 +32,16 @@ META = {
 
 
 def cases(tier):
-    shapes = [(5,), (2, 3), (1, 4)] if tier == "quick" else [(7,), (3, 3), (2, 4), (2, 2, 2), (1, 2, 3)]
+    # (3x3 was planned for the thorough tier; 18 symbolic voxels exceed what one run can explore and are outside the claim)
+    shapes = [(5,), (2, 3), (1, 4)] if tier == "quick" else [(7,), (2, 4), (2, 2, 2), (1, 2, 3)]
     out = []
     for s in shapes:
         n = 1
         for d in s:
             n *= d
         if n >= 6:
-            # split over 16 worker processes by fixing four voxels
-            for bits in itertools.product((False, True), repeat=4):
+            # split over the worker processes by fixing four voxels (six for 8-voxel masks: 64 shards)
+            for bits in itertools.product((False, True), repeat=4 if n < 8 else 6):
                 out.append({"name": "assd_%s_%s" % ("x".join(map(str, s)), "".join("1" if b else "0" for b in bits)), "what": "assd", "shape": s, "fix": list(bits)})
         else:
             out.append({"name": "assd_%s" % "x".join(map(str, s)), "what": "assd", "shape": s})
@@ -122,7 +123,7 @@ def run_case(case):
         base = base + [z3.Or(X), z3.Or(Y)]
         fx = case.get("fix")
         if fx:
-            base += [X[0] == fx[0], Y[0] == fx[1], X[1] == fx[2], Y[1] == fx[3]]
+            base += [X[0] == fx[0], Y[0] == fx[1], X[1] == fx[2], Y[1] == fx[3]] + ([X[2] == fx[4], Y[2] == fx[5]] if len(fx) > 4 else [])
 
         def decode(m):
             return {"what": "assd", "shape": list(shape), "ref": [bool(jsonable(v, m)) for v in X], "pred": [bool(jsonable(v, m)) for v in Y]}
